@@ -51,6 +51,7 @@ type CombinationColexIterator struct {
 	k    int
 	j    int //Position to try to increase
 	data []int
+	done bool //Set once the iterator has run out of subsets.
 }
 
 //CombinationsColex returns a new CombinationColexIterator which iterates over all subsets of k distinct elements from 0, ..., n-1 in colexicographic order.
@@ -78,8 +79,13 @@ func (b *CombinationColexIterator) Next() bool {
 		return b.k == -1
 	}
 
+	if b.done {
+		return false
+	}
+
 	if b.j >= b.k-1 {
-		if b.data[b.k-1] == b.n-1 {
+		if b.data[b.k-1] >= b.n-1 {
+			b.done = true
 			return false
 		}
 		b.data[b.k-1]++
@@ -102,7 +108,8 @@ func (b *CombinationColexIterator) Next() bool {
 		b.data[j] = j
 	}
 
-	if b.data[b.k-1] == b.n-1 {
+	if b.data[b.k-1] >= b.n-1 {
+		b.done = true
 		return false
 	}
 	b.data[b.k-1]++
